@@ -119,7 +119,15 @@ func internRoot(items []any, r [32]byte) (id []any, ok bool) {
 
 // SUT -----------------------------------------------------------------------------------------
 
+func must(st kvstore.KVStore, err error) kvstore.KVStore {
+	if err != nil {
+		panic(err)
+	}
+	return st
+}
+
 type authSUT struct {
+	sibStore kvstore.KVStore // realm of the sibling instance (churnSibling)
 	cfg     core.Ev
 	flavour string
 	nk      int
@@ -134,11 +142,30 @@ type authSUT struct {
 
 func init() { core.Register("AuthMap", func() core.SUT { return &authSUT{} }) }
 
-func (s *authSUT) open() instance {
+func (s *authSUT) open() instance { return s.openOver(s.store) }
+
+func (s *authSUT) openOver(st kvstore.KVStore) instance {
 	if s.flavour == "set" {
-		return setInst{ads.NewSet[[32]byte, keyT](s.store, typeutils.ByteArray32ToBytes, typeutils.ByteArray32FromBytes, keyToBytes, keyFromBytes)}
+		return setInst{ads.NewSet[[32]byte, keyT](st, typeutils.ByteArray32ToBytes, typeutils.ByteArray32FromBytes, keyToBytes, keyFromBytes)}
 	}
-	return mapInst{ads.NewMap[[32]byte, keyT, valT](s.store, typeutils.ByteArray32ToBytes, typeutils.ByteArray32FromBytes, keyToBytes, keyFromBytes, valToBytes, valFromBytes)}
+	return mapInst{ads.NewMap[[32]byte, keyT, valT](st, typeutils.ByteArray32ToBytes, typeutils.ByteArray32FromBytes, keyToBytes, keyFromBytes, valToBytes, valFromBytes)}
+}
+
+// churnSibling: a SECOND map (set) lives in a sibling realm of the same database. Around every Commit of the instance under
+// test it is given the same contents and committed, and afterwards emptied and committed again: what one instance writes,
+// deletes or prunes in its realm must never touch the other's (each keeps its trie, its mirror and its root in its own realm).
+func (s *authSUT) churnSibling(fill bool) {
+	sib := s.openOver(s.sibStore)
+	if fill {
+		for k, v := range s.shadow {
+			_ = sib.set(key(k), valT(v))
+		}
+	} else {
+		for i := 1; i <= s.nk; i++ {
+			_, _ = sib.del(key(i))
+		}
+	}
+	_ = sib.commit()
 }
 
 func (s *authSUT) Reset(cfg core.Ev) {
@@ -153,7 +180,9 @@ func (s *authSUT) Reset(cfg core.Ev) {
 	if ka, _ := cfg["ka"].(string); ka == "nested" {
 		curAlphabet = &nestedAlphabet
 	}
-	s.store = mapdb.NewMapDB()
+	db := mapdb.NewMapDB()
+	s.store = must(db.WithExtendedRealm([]byte{0xa1}))    // the instance under test and its sibling live in sibling realms
+	s.sibStore = must(db.WithExtendedRealm([]byte{0xb2})) // of one database
 	s.m = s.open()
 	s.shadow, s.committed, s.ever = map[int]string{}, map[int]string{}, false
 }
@@ -332,7 +361,9 @@ func (s *authSUT) Apply(e core.Ev) (any, any) {
 	case "StreamStop":
 		return streamStop(s.m), s.st()
 	case "Commit":
+		s.churnSibling(true)
 		err := s.m.commit()
+		s.churnSibling(false)
 		if err == nil {
 			s.ever = true
 			s.committed = map[int]string{}
